@@ -18,7 +18,7 @@ UNTOUCHED = ('<untouched>',)
 
 
 def vstr(ver):
-    return '.'.join(str(x) for x in ver)
+    return 'unversioned' if ver is None else '.'.join(str(x) for x in ver)
 
 
 class Intent:
